@@ -97,7 +97,7 @@ partial def parsePlan (subs : Subs) : List String â†’ Option (P Ã— List String Ã
   | [] => none
   | t :: ts =>
     match t with
-    | "one" => some (.source [.ok []], ts, subs)
+    | "one" => some (.scan [[]], ts, subs)
     | "arg" => some (.arg, ts, subs)
     | "unwind" =>
       match ts with
@@ -282,6 +282,10 @@ def csem (classes : Array Char) : Sem PK Nat Truth DErr Nat Unit where
   aggCheck _ _ _ _ := .ok ()
   aggFinal _ _ _ _ _ := .ok 0
   nonBool := .runtime
+  lookup _ _ := none
+  call _ _ _ _ := .error .runtime
+  contains _ _ := true
+  null := .null
 
 def showCount (r : Except DErr (List Nat)) : String :=
   match r with
